@@ -28,12 +28,13 @@ PLAN = {
                                             ("d", dict(flags=ALL4)), ("w", dict(flags=FF))],
                 mc=[("MC_Compile", {"quick": "MC_Compile_groups_quick.cfg", "thorough": "MC_Compile_groups_thorough.cfg"}), ("MC_C03", {"quick": "MC_C03_quick.cfg", "thorough": "MC_C03_thorough.cfg"})]),
     "C04": dict(export="Export_C04", parts=[("i", dict(flags=FF)), ("o", dict(flags=[(False, False), (False, True)])),
-                                            ("f", dict(flags=ALL4))],
+                                            ("f", dict(flags=ALL4)), ("n", dict(flags=FF))],
                 mc=[("MC_Compile", {"quick": "MC_Compile_not_quick.cfg", "thorough": "MC_Compile_not_thorough.cfg"}), ("MC_C04", {"quick": "MC_C04_quick.cfg", "thorough": "MC_C04_thorough.cfg"})]),
     "C05": dict(export="Export_C05", parts=[("i", dict(flags=[(False, False), (True, True)])),
                                             ("o", dict(flags=[(False, False), (True, True)])),
                                             ("r", dict(flags=FF, spellings=[{}, {"upper_suffix": True}])),
-                                            ("d", dict(flags=FF, spellings=[{}, {"ints": True}]))],
+                                            ("d", dict(flags=FF, spellings=[{}, {"ints": True}])),
+                                            ("g", dict(flags=[(False, False), (False, True)]))],
                 mc=[("MC_Compile", {"quick": "MC_Compile_caps_quick.cfg", "thorough": "MC_Compile_caps_thorough.cfg"}), ("MC_Compile", {"quick": "MC_Compile_regs_quick.cfg", "thorough": "MC_Compile_regs_thorough.cfg"}), ("MC_C05", {"quick": "MC_C05_quick.cfg", "thorough": "MC_C05_thorough.cfg"})]),
     "C06": dict(export="Export_C06", parts=[(None, dict(flags=[(False, False), (True, True)], spellings=[{}, {"ints": True}]))],
                 mc=[("MC_Compile", {"quick": "MC_Compile_deref_quick.cfg", "thorough": "MC_Compile_deref_thorough.cfg"}), ("MC_C06", {"quick": "MC_C06_quick.cfg", "thorough": "MC_C06_thorough.cfg"})]),
